@@ -83,6 +83,83 @@ pub mod tempfile {
         }
     }
 
+    /// `tempfile::Builder`: only the number of random name bytes matters here.
+    #[verifier::external_body]
+    pub struct Builder {
+        x: u8,
+    }
+
+    impl Builder {
+        pub uninterp spec fn rand(&self) -> nat;
+
+        #[verifier::external_body]
+        pub fn new() -> (r: Builder)
+            ensures
+                r.rand() == 6,
+        {
+            unimplemented!()
+        }
+
+        #[verifier::external_body]
+        pub fn prefix(&mut self, p: &str) -> (r: &mut Builder)
+            ensures
+                r.rand() == old(self).rand(),
+                *final(self) == *final(r),
+        {
+            unimplemented!()
+        }
+
+        #[verifier::external_body]
+        pub fn suffix(&mut self, p: &str) -> (r: &mut Builder)
+            ensures
+                r.rand() == old(self).rand(),
+                *final(self) == *final(r),
+        {
+            unimplemented!()
+        }
+
+        #[verifier::external_body]
+        pub fn rand_bytes(&mut self, n: usize) -> (r: &mut Builder)
+            ensures
+                r.rand() == n,
+                *final(self) == *final(r),
+        {
+            unimplemented!()
+        }
+
+        /// mkstemp in `dir` with this builder's naming.  PROTOCOL (C06 C05): a temporary file gets an unpredictable name;
+        /// a fixed name (`rand_bytes(0)`) is a lock file: whoever dies holding it blocks everybody else.
+        #[verifier::external_body]
+        pub fn tempfile_in(&self, dir: &Path, Tracked(w): Tracked<&mut World>) -> (r: std::io::Result<NamedTempFile>)
+            requires
+                old(w).inv(),
+                self.rand() > 0,   // @L C06 C05 C20:temporary-files-get-unpredictable-names-a-fixed-name-is-a-lock-file
+                old(w).is_temp_dir(pv(dir)) && !old(w).under_ro(pv(dir)),   // @L C02 C15 C16:temporary-files-live-in-kismet-temp
+            ensures
+                final(w).inv(),
+                final(w).kept(*old(w)) && final(w).steps == old(w).steps + 1 && final(w).opens == old(w).opens + 1,
+                final(w).now == old(w).now && final(w).listed == old(w).listed && final(w).published == old(w).published && final(w).supplied == old(w).supplied,
+                final(w).dirs == old(w).dirs,
+                match r {
+                    Ok(t) => {
+                        &&& final(w).hard_faults == old(w).hard_faults
+                        &&& t.offset() == 0
+                        &&& t.pathv().len() > 0 && parent(t.pathv()) == pv(dir) && single_component(base_name(t.pathv()))
+                        &&& !old(w).files.contains_key(t.pathv()) && !old(w).dirs.contains(t.pathv()) && !old(w).inodes.contains_key(t.ino())
+                        &&& final(w).files == old(w).files.insert(t.pathv(), t.ino())
+                        &&& final(w).inodes == old(w).inodes.insert(
+                            t.ino(),
+                            Inode { content: Seq::<u8>::empty(), writable: true, mode: 0o600, mtime: trunc(old(w).now, old(w).gran), atime: trunc(old(w).now, old(w).gran), synced: false, flush_failed: false },
+                        )
+                        &&& final(w).owned == old(w).owned.insert(t.pathv())
+                    },
+                    Err(e) => final(w).same_fs(*old(w)) && final(w).owned == old(w).owned && final(w).hard_faults == old(w).hard_faults + 1,
+                },
+        {
+            unimplemented!()
+        }
+    }
+
     impl NamedTempFile {
         pub uninterp spec fn pathv(&self) -> PathV;
 
@@ -118,6 +195,15 @@ pub mod tempfile {
                     },
                     Err(e) => final(w).same_fs(*old(w)) && final(w).owned == old(w).owned && final(w).hard_faults == old(w).hard_faults + 1,
                 },
+        {
+            unimplemented!()
+        }
+
+        /// Closes the descriptor and keeps the path (no chmod, no flush).
+        #[verifier::external_body]
+        pub fn into_temp_path(self) -> (r: TempPath)
+            ensures
+                r.pathv() == self.pathv(),
         {
             unimplemented!()
         }
